@@ -74,6 +74,12 @@ pub fn alphabet() -> Vec<St> {
     v.push(St { text: format!("{}[[1 0]] += 9", n), k: K::IndexAssign, targets: vec![n], reads: vec![], tmpl: "index-op-assign(zero-after-valid)" });
     v.push(St { text: format!("{}[1] = \"s\"", n), k: K::IndexAssign, targets: vec![n], reads: vec![], tmpl: "index-assign(wrong-kind)" });
     v.push(St { text: format!("{} += 1", n), k: K::OpAssign, targets: vec![n], reads: vec![], tmpl: "op-assign" });
+    if n == "b" {
+      // an op-assignment that fails part-way: the second element of a u8 matrix overflows
+      v.push(St { text: "~b<[u8]> := [1 250 3]".into(), k: K::DefDerived, targets: vec!["b"], reads: vec![], tmpl: "define-mutable-u8-matrix" });
+      v.push(St { text: "b += 10u8".into(), k: K::OpAssign, targets: vec!["b"], reads: vec![], tmpl: "op-assign(overflow-in-second-element)" });
+      v.push(St { text: "b[1..=2] += 10u8".into(), k: K::OpAssign, targets: vec!["b"], reads: vec![], tmpl: "index-op-assign(overflow-in-second-element)" });
+    }
     v.push(St { text: format!("{}[1] += 1", n), k: K::OpAssign, targets: vec![n], reads: vec![], tmpl: "index-op-assign" });
     v.push(St { text: format!("{}.k = 5", n), k: K::FieldAssign, targets: vec![n], reads: vec![], tmpl: "field-assign" });
     v.push(St { text: format!("{}.zz = 5", n), k: K::FieldAssign, targets: vec![n], reads: vec![], tmpl: "field-assign(no-such-field)" });
